@@ -147,7 +147,7 @@ def checkStart (p : Pool) (isCoro : Bool) : Option Err :=
 def newReq (kind : ReqKind) (stars : Nat) (group : String) (sp : SpawnSpec) (remaining : Nat) (items : List Item) (nc : Nat) : Req :=
   { kind := kind, stars := stars, group := group, wspec := sp.ws, endCb := sp.endCb, cancelCb := sp.cancelCb, badCall := sp.badCall,
     hooks := sp.hooks, remaining := remaining, items := items, mapSem := { value := .fin nc, waiters := [] },
-    nc := nc, acquired := false, pulled := 0, created := 0, skipped := 0, frame := .notStarted, mustCancel := false,
+    nc := nc, n0 := remaining + items.length, acquired := false, pulled := 0, created := 0, skipped := 0, frame := .notStarted, mustCancel := false,
     sched := true, outcome := none, inRunning := true, inCancelled := false, doneCbs := [] }
 
 def addGroupIfMissing (gs : List (String × List Nat)) (g : String) : List (String × List Nat) :=
